@@ -24,7 +24,7 @@ def run(ctx):
                  'advances counter0 by 1, double-word mode by 2 using addr & ~1 / addr | 1 on both sides', floor=5)
     ctx.rule(D4, 'memory effects: Tick reads/writes DSP memory only through ReadWord/WriteWord(DataMemoryOffset + f(cursor)) and '
                  'external memory only through ahbm Read16/32 / Write16/32(ahbm_channel, cursor, ...); space codes 0 and 7 select '
-                 'them on both sides', floor=4)
+                 'them on both sides', floor=2)
     ctx.rule(D5, 'AHBM units: Read32 / WriteInternal advance the burst address by 1/2/4 for U8/U16/U32 with the matching alignment '
                  'mask; burst sizes are 1/4/8; the AHBM channel of a DMA channel is the first whose connect mask has that bit set', floor=4)
     dodma = ctx.fn(D + '::DoDma(unsigned short)')
